@@ -13,6 +13,7 @@
 #include "CppUTest/TestRegistry.h"
 #include "CppUTest/TestOutput.h"
 #include "CppUTest/TestResult.h"
+#include "CppUTest/JUnitTestOutput.h"
 #include "CppUTest/MemoryLeakDetectorMallocMacros.h"
 #undef new
 #undef malloc
@@ -368,7 +369,7 @@ struct Engine : public vf::Engine {
         static const int dens[] = { 2, 3, 4, 8, 16, 32, 64 };
         d.p["preempt_den"] = dens[w.below(7)]; d.p["bias_lock"] = w.chance(1, 4);
         if (w.chance(1, 4)) { d.p["few_points"] = w.range(1, 4); static const int spans[] = { 200, 1000, 4000, 12000 }; d.p["few_span"] = spans[w.below(4)]; d.p["bias_lock"] = 0; }      // long uninterrupted stretches with 1-4 preemptions
-        d.p["misuse"] = misuse;
+        d.p["misuse"] = misuse; if (misuse) d.p["junit_out"] = w.chance(1, 2);
         if (misuse) {
             Group T; T.tag = "test";
             int n = (int)w.range(0, 6);
@@ -428,9 +429,18 @@ struct Engine : public vf::Engine {
             g_testScript = testScript;
             TestRegistry reg; TestRegistry* saved = TestRegistry::getCurrentRegistry(); reg.setCurrentRegistry(&reg);
             MisuseShell* shell = new (::malloc(sizeof(MisuseShell))) MisuseShell(); reg.addTest(shell);
-            StringBufferTestOutput out; TestResult res(out);
-            reg.runAllTests(res);
-            testFailures = res.getFailureCount(); testFailureText = out.getOutput().asCharString();
+            if (d.pi("junit_out")) {
+                // an output that allocates through the overloaded operators while it records a failure (JUnitTestOutput copies the TestFailure with new)
+                simIO().reset();
+                JUnitTestOutput* out = new (::malloc(sizeof(JUnitTestOutput))) JUnitTestOutput(); TestResult res(*out);
+                reg.runAllTests(res);
+                testFailures = res.getFailureCount(); testFailureText = "(junit output)";
+                out->~JUnitTestOutput(); ::free(out);
+            } else {
+                StringBufferTestOutput out; TestResult res(out);
+                reg.runAllTests(res);
+                testFailures = res.getFailureCount(); testFailureText = out.getOutput().asCharString();
+            }
             saved->setCurrentRegistry(0); shell->~MisuseShell(); ::free(shell);
         } else {
             schedPoint();
@@ -494,6 +504,7 @@ struct Engine : public vf::Engine {
     }
     void simplifications(const Desc& d, Vec<Desc>& out) {
         if (d.pi("bias_lock")) { Desc c = d; c.p["bias_lock"] = 0; out.push_back(c); }
+        if (d.pi("junit_out")) { Desc c = d; c.p["junit_out"] = 0; out.push_back(c); }
         if (d.pi("few_points") > 1) { Desc c = d; c.p["few_points"] = d.pi("few_points") - 1; out.push_back(c); }
         if (d.schedule.size() > 2) { Desc c = d; c.schedule.erase(c.schedule.begin(), c.schedule.begin() + 2); out.push_back(c); }
     }
